@@ -396,7 +396,9 @@ func (s *LegacyServer) Introspect(ctx context.Context, r *Request[IntrospectionR
 	}
 	err = s.provider.Storage().SetIntrospectionFromToken(ctx, response, tokenID, subject, clientID)
 	if err != nil {
-		return NewResponse(response), nil
+		// {"active":false} and nothing else (RFC 7662, section 2.2): what the storage
+		// wrote into the response before it failed must not be disclosed
+		return NewResponse(new(oidc.IntrospectionResponse)), nil
 	}
 	response.Active = true
 	return NewResponse(response), nil
